@@ -7,23 +7,26 @@ package c16
 // ConsensusReactor.Receive -> decodeMsg -> peerMsgQueue -> handleMsg.
 
 import (
+	"bytes"
+	"encoding/binary"
 	"fmt"
+	"io/ioutil"
 	"net"
+	"os"
+	"path/filepath"
 	"sort"
 	"strings"
 	"sync"
 	"sync/atomic"
-	"time"
 
 	cfg "github.com/lianxiangcloud/linkchain/config"
 	cs "github.com/lianxiangcloud/linkchain/consensus"
 	cstypes "github.com/lianxiangcloud/linkchain/consensus/types"
-	auto "github.com/lianxiangcloud/linkchain/libs/autofile"
 	cmn "github.com/lianxiangcloud/linkchain/libs/common"
+	"github.com/lianxiangcloud/linkchain/libs/crypto"
 	dbm "github.com/lianxiangcloud/linkchain/libs/db"
 	"github.com/lianxiangcloud/linkchain/libs/log"
 	"github.com/lianxiangcloud/linkchain/libs/p2p"
-	"github.com/lianxiangcloud/linkchain/libs/ser"
 	"github.com/lianxiangcloud/linkchain/types"
 
 	"verifh/cluster"
@@ -165,7 +168,7 @@ func (m *mockSwitch) CloseAllConnection()                        {}
 
 // rig is a cluster plus the reactor side of its target node.
 type rig struct {
-	wal    *walStats
+	wal    *fileWAL
 	cl     *cluster.Cluster
 	target int
 	conR   *cs.ConsensusReactor
@@ -193,6 +196,9 @@ func newCluster(n int) (*cluster.Cluster, error) {
 	}
 	c.ValSet = types.NewValidatorSet(vals)
 	sort.Sort(types.PrivValidatorsByAddress(pvs))
+	for i, pv := range pvs {
+		pvs[i] = &cachedPV{PrivValidator: pv, pub: pv.GetPubKey(), addr: pv.GetAddress()}
+	}
 	c.PVs = pvs
 	params := types.DefaultConsensusParams()
 	params.BlockGossip.BlockPartSizeBytes = partSize
@@ -209,6 +215,18 @@ func newCluster(n int) (*cluster.Cluster, error) {
 	}
 	return c, nil
 }
+
+// cachedPV answers GetAddress / GetPubKey from memory (MockPV derives the public key from the private key on
+// every call - a scalar multiplication - and the synchronous driver asks for the address of every validator at
+// every step). Signing is the wrapped validator's.
+type cachedPV struct {
+	types.PrivValidator
+	pub  crypto.PubKey
+	addr crypto.Address
+}
+
+func (p *cachedPV) GetAddress() crypto.Address { return p.addr }
+func (p *cachedPV) GetPubKey() crypto.PubKey   { return p.pub }
 
 func bootNode(c *cluster.Cluster, n *cluster.Node) error {
 	n.StatusDB = dbm.NewMemDB()
@@ -255,43 +273,100 @@ func (a safeApp) LoadBlockCommit(h uint64) *types.Commit {
 	return nil
 }
 
-// encWAL stands in for the write-ahead log of the target: every message is encoded exactly as
-// WALEncoder.Encode does (ser.MustEncodeToBytes of a TimedWALMessage - a failure there is a panic
-// inside receiveRoutine) and dropped. It notes entries the WAL decoder would refuse to read back.
-type encWAL struct {
-	stats *walStats
-}
-type walStats struct {
-	entries  int
-	maxBytes int
-	tooBig   int // entries above the decoder's 1 MiB limit
+// fileWAL is the write-ahead log of the target: the real baseWAL (consensus.NewWAL) on a file group of its
+// own, started the way ConsensusState.OnStart starts it. receiveRoutine (and the hooks that execute its select
+// cases) writes every peer message, every own message and every timeout to it BEFORE handling it, through the
+// real WALEncoder; baseWAL.Write turns an encoder error into a panic inside the consensus routine.
+type fileWAL struct {
+	cs.WAL
+	dir string
 }
 
-func (w encWAL) Write(m cs.WALMessage) {
-	bz := ser.MustEncodeToBytes(&cs.TimedWALMessage{Time: time.Now(), Msg: m})
-	w.stats.entries++
-	if len(bz) > w.stats.maxBytes {
-		w.stats.maxBytes = len(bz)
+type walStats struct {
+	entries    int // records the target wrote
+	maxBytes   int // the longest record (without the 8 bytes of framing)
+	tooBig     int // records above the decoder's limit of 1 MiB
+	unreadable int // records the real WALDecoder refuses to read back
+}
+
+// walRoot prefers a memory file system (WriteSync calls fsync for every own message).
+func walRoot() string {
+	if st, err := os.Stat("/dev/shm"); err == nil && st.IsDir() {
+		if d, err := ioutil.TempDir("/dev/shm", "vc16probe"); err == nil {
+			os.Remove(d)
+			return "/dev/shm"
+		}
 	}
-	if len(bz) > 1024*1024 {
-		w.stats.tooBig++
+	return ""
+}
+
+var walDirRoot = walRoot()
+
+func newFileWAL() (*fileWAL, error) {
+	dir, err := ioutil.TempDir(walDirRoot, "vc16wal")
+	if err != nil {
+		return nil, err
+	}
+	w, err := cs.NewWAL(filepath.Join(dir, "wal"))
+	if err != nil {
+		os.RemoveAll(dir)
+		return nil, err
+	}
+	if err := w.Start(); err != nil {
+		os.RemoveAll(dir)
+		return nil, err
+	}
+	return &fileWAL{WAL: w, dir: dir}, nil
+}
+
+// close stops the log, reads every record back with the real WALDecoder (one record at a time, so that a
+// refused record does not hide the ones behind it), adds the counts to st and removes the files.
+func (w *fileWAL) close(st *walStats) {
+	func() {
+		defer func() { recover() }()
+		w.WAL.Stop()
+	}()
+	defer os.RemoveAll(w.dir)
+	if st == nil {
+		return
+	}
+	names, _ := filepath.Glob(filepath.Join(w.dir, "wal*"))
+	sort.Strings(names)
+	for _, name := range names {
+		bz, err := ioutil.ReadFile(name)
+		if err != nil {
+			continue
+		}
+		for len(bz) >= 8 {
+			n := int(binary.BigEndian.Uint32(bz[4:8]))
+			if n > len(bz)-8 {
+				break // (a torn tail cannot happen here: the log was closed in order)
+			}
+			st.entries++
+			if n > st.maxBytes {
+				st.maxBytes = n
+			}
+			if n > 1024*1024 {
+				st.tooBig++
+			}
+			if _, err := cs.NewWALDecoder(bytes.NewReader(bz[:8+n])).Decode(); err != nil {
+				st.unreadable++
+			}
+			bz = bz[8+n:]
+		}
 	}
 }
-func (w encWAL) WriteSync(m cs.WALMessage) { w.Write(m) }
-func (encWAL) Group() *auto.Group          { return nil }
-func (encWAL) SearchForEndHeight(height uint64, options *cs.WALSearchOptions) (*auto.GroupReader, bool, error) {
-	return nil, false, nil
-}
-func (encWAL) Start() error { return nil }
-func (encWAL) Stop() error  { return nil }
-func (encWAL) Wait()        {}
 
 // attachReactor starts the real reactor on the target node and adds the attacker peer.
 // With gossip == false the peer reports IsRunning() == false, so the three gossip
 // routines AddPeer starts return at once and everything stays synchronous.
 func (r *rig) attachReactor(gossip bool) error {
-	r.wal = &walStats{}
-	r.state().VerifSetWAL(encWAL{r.wal})
+	w, err := newFileWAL()
+	if err != nil {
+		return fmt.Errorf("write-ahead log of the target: %v", err)
+	}
+	r.wal = w
+	r.state().VerifSetWAL(w)
 	r.sw = newMockSwitch()
 	r.conR = cs.NewConsensusReactor(r.state(), false, r.sw)
 	r.conR.SetLogger(log.NewNopLogger())
